@@ -12,7 +12,10 @@
    lost = true: buffered data and the write in flight reach the disk only partially.
    `traj` is the uninterrupted computation.  `step i seed` gets the seed sequence pushed for
    iteration i; `raw i` is child i of the random state saved by the first run, `fresh i` is
-   `fresh_stochasticity(i)`; [sched] is the schedule of the uninterrupted run: iteration i uses the
+   `fresh_stochasticity(i)`; `g0` / `lstep` are the process-wide base generator and an iteration
+   that would read and advance it (used by the variant late_push_proto only: the code as it is
+   enters the iteration's stochasticity context first, so the state the step function draws from
+   is the iteration's own seed only -- C25_base_generator_unused); [sched] is the schedule of the uninterrupted run: iteration i uses the
    raw seed of the last iteration <= i with fresh_stochasticity True. *)
 From Coq Require Import List Arith Bool NArith.
 Import ListNotations.
@@ -25,26 +28,28 @@ Require Import NV.C25.Model NV.C25.ProofsBase NV.C25.Proofs.
    and EVERY finite sequence of crash points (also crashes of restarted runs): the final restart
    with resume=True does not raise and returns the (mean, samples) of the uninterrupted run. *)
 Theorem C25_resume_equiv :
-  forall (M R E H Seed : Type) (step : nat -> Seed -> St M R -> St M R) (estep : nat -> St M R -> E -> E)
+  forall (M R E H Seed G : Type) (step : nat -> Seed -> St M R -> St M R) (estep : nat -> St M R -> E -> E)
          (hstep : nat -> St M R -> H -> H) (init : St M R) (e0 : E) (h0 : H)
-         (raw : nat -> Seed) (fresh : nat -> bool) (sg : strategy),
+         (raw : nat -> Seed) (fresh : nat -> bool)
+         (g0 : G) (lstep : nat -> Seed -> G -> St M R -> St M R * G) (sg : strategy),
     fresh 0 = true ->
     forall (n : nat) (r0 : bool) (cps : list (nat * bool)) (d0 : disk M R E H),
       lookup M R E H Marker d0 = None ->
-      snd (run M R E H Seed step estep hstep init e0 h0 raw fresh fixed_proto sg true n
-             (chain M R E H Seed step estep hstep init e0 h0 raw fresh fixed_proto sg n r0 cps d0))
+      snd (run M R E H Seed G step estep hstep init e0 h0 raw fresh g0 lstep fixed_proto sg true n
+             (chain M R E H Seed G step estep hstep init e0 h0 raw fresh g0 lstep fixed_proto sg n r0 cps d0))
       = Ok (tst M R E H Seed step estep hstep init e0 h0 raw fresh n).
 Proof. exact resume_equiv. Qed.
 
 (* ... which is what the uninterrupted run returns. *)
 Theorem C25_uninterrupted :
-  forall (M R E H Seed : Type) (step : nat -> Seed -> St M R -> St M R) (estep : nat -> St M R -> E -> E)
+  forall (M R E H Seed G : Type) (step : nat -> Seed -> St M R -> St M R) (estep : nat -> St M R -> E -> E)
          (hstep : nat -> St M R -> H -> H) (init : St M R) (e0 : E) (h0 : H)
-         (raw : nat -> Seed) (fresh : nat -> bool) (sg : strategy),
+         (raw : nat -> Seed) (fresh : nat -> bool)
+         (g0 : G) (lstep : nat -> Seed -> G -> St M R -> St M R * G) (sg : strategy),
     fresh 0 = true ->
     forall (n : nat) (r : bool) (d0 : disk M R E H),
       lookup M R E H Marker d0 = None ->
-      snd (run M R E H Seed step estep hstep init e0 h0 raw fresh fixed_proto sg r n d0)
+      snd (run M R E H Seed G step estep hstep init e0 h0 raw fresh g0 lstep fixed_proto sg r n d0)
       = Ok (tst M R E H Seed step estep hstep init e0 h0 raw fresh n).
 Proof. exact uninterrupted. Qed.
 
@@ -54,14 +59,15 @@ Proof. exact uninterrupted. Qed.
    history, minisanity history of iteration j, random state) is complete and holds exactly what
    the uninterrupted run had after iteration j -- never a mixture of two iterations. *)
 Theorem C25_disk_invariant :
-  forall (M R E H Seed : Type) (step : nat -> Seed -> St M R -> St M R) (estep : nat -> St M R -> E -> E)
+  forall (M R E H Seed G : Type) (step : nat -> Seed -> St M R -> St M R) (estep : nat -> St M R -> E -> E)
          (hstep : nat -> St M R -> H -> H) (init : St M R) (e0 : E) (h0 : H)
-         (raw : nat -> Seed) (fresh : nat -> bool) (sg : strategy),
+         (raw : nat -> Seed) (fresh : nat -> bool)
+         (g0 : G) (lstep : nat -> Seed -> G -> St M R -> St M R * G) (sg : strategy),
     fresh 0 = true ->
     forall (n : nat) (r0 : bool) (cps : list (nat * bool)) (d0 : disk M R E H),
       lookup M R E H Marker d0 = None ->
       good M R E H Seed step estep hstep init e0 h0 raw fresh sg n
-           (chain M R E H Seed step estep hstep init e0 h0 raw fresh fixed_proto sg n r0 cps d0).
+           (chain M R E H Seed G step estep hstep init e0 h0 raw fresh g0 lstep fixed_proto sg n r0 cps d0).
 Proof. exact disk_invariant. Qed.
 
 (* The seed schedule (`C25_rng_schedule` of the design): the list every run prepares -- a fresh run
@@ -80,6 +86,21 @@ Theorem C25_sched_spec :
   forall (Seed : Type) (raw : nat -> Seed) (fresh : nat -> bool) (k : nat),
     sched Seed raw fresh (S k) = if fresh (S k) then raw (S k) else sched Seed raw fresh k.
 Proof. reflexivity. Qed.
+
+(* The state an iteration draws from is its own seed sequence only: the operations and the outcome
+   of a run of the code as it is do not depend on the state of the process-wide base generator
+   nor on how an iteration would use it -- whatever changes between iterations (the likelihood and
+   its domain, the number of samples, the minimisers) is inside the arbitrary function [step i],
+   which gets the iteration index, the iteration's seed and the previous state, and nothing else. *)
+Theorem C25_base_generator_unused :
+  forall (M R E H Seed G : Type) (step : nat -> Seed -> St M R -> St M R) (estep : nat -> St M R -> E -> E)
+         (hstep : nat -> St M R -> H -> H) (init : St M R) (e0 : E) (h0 : H)
+         (raw : nat -> Seed) (fresh : nat -> bool) (sg : strategy)
+         (g0 g0' : G) (lstep lstep' : nat -> Seed -> G -> St M R -> St M R * G)
+         (r : bool) (n : nat) (d : disk M R E H),
+    run M R E H Seed G step estep hstep init e0 h0 raw fresh g0 lstep fixed_proto sg r n d =
+    run M R E H Seed G step estep hstep init e0 h0 raw fresh g0' lstep' fixed_proto sg r n d.
+Proof. exact base_generator_unused. Qed.
 
 (* ---- documentation of the defects of the OLD protocol (before C25-1 / C25-2), on the instance
    the correspondence check runs (2 iterations, 2 residual files per iteration); each witness was
@@ -136,4 +157,22 @@ Proof. exists 86. eexists. eexists. split; [ | split]; vm_compute; reflexivity. 
 
 Example C25_cut_schedule_fixed :
   match cut_outcome fixed_proto 86, cut_reference fixed_proto with Ok a, Ok b => st_eqb a b | _, _ => false end = true.
+Proof. vm_compute. reflexivity. Qed.
+
+(* A variant that enters the stochasticity context of an iteration late (late_push_proto, = seeded
+   mutation C25-r3m1; not the history of the code): draws made before `push_sseq` come from the
+   process-wide base generator, which an uninterrupted run advances from iteration to iteration
+   but the resume branch resets to the saved state.  Killed right after the marker of iteration 0
+   was moved into place -> the restart finishes with a different result. *)
+Definition late_outcome (pr : proto) (k : nat) :=
+  snd (irun pr SAll [2; 2] [] true 2 (ichain pr SAll [2; 2] [] 2 false [(k, true)] [])).
+Definition late_reference (pr : proto) := snd (irun pr SAll [2; 2] [] false 2 []).
+
+Theorem C25_late_push_refuted :
+  exists k st ref, late_outcome late_push_proto k = Ok st /\ late_reference late_push_proto = Ok ref /\
+                   st_eqb st ref = false.
+Proof. exists 30. eexists. eexists. split; [ | split]; vm_compute; reflexivity. Qed.
+
+Example C25_late_push_fixed :
+  match late_outcome fixed_proto 30, late_reference fixed_proto with Ok a, Ok b => st_eqb a b | _, _ => false end = true.
 Proof. vm_compute. reflexivity. Qed.
